@@ -150,6 +150,10 @@ type signedTape struct {
 	contents map[string][]byte // content signature (STFS.Signature of the inner header) -> signed plaintext
 	byName   map[string][]byte
 	dir      string
+	names    map[string]bool // every path the writer ever signed (codec suffix stripped)
+	sums     map[string]bool // sha of every content the writer ever signed
+	judged   int
+	w        *Worker
 }
 
 // buildSignedTape writes a small history under cfg and captures what the legitimate writer signed.
@@ -180,7 +184,7 @@ func buildSignedTape(w *Worker, cfg Cfg, seed uint64) (*signedTape, error) {
 		}
 	}
 	rig.LocksSettled()
-	st := &signedTape{cfg: rig.Cfg, dir: dir, signed: map[string]bool{}, signedQ: map[string]bool{}, contents: map[string][]byte{}, byName: map[string][]byte{}}
+	st := &signedTape{cfg: rig.Cfg, dir: dir, signed: map[string]bool{}, signedQ: map[string]bool{}, contents: map[string][]byte{}, byName: map[string][]byte{}, names: map[string]bool{"/": true}, sums: map[string]bool{sum(nil): true}, w: w}
 	st.img, err = os.ReadFile(rig.Drive)
 	if err != nil {
 		return nil, err
@@ -215,6 +219,11 @@ func buildSignedTape(w *Worker, cfg Cfg, seed uint64) (*signedTape, error) {
 		}
 		if hdr != nil && rc.Inner != nil && isRegular(rc.Inner) {
 			st.contents[contentKey(hdr)] = data
+			st.sums[sum(data)] = true
+		}
+		if rc.Inner != nil {
+			st.names[normRowName(stripCodecSuffix(rc.Inner.Name, rig.Cfg))] = true
+			st.names[normRowName(rc.Inner.Name)] = true
 		}
 	}
 	return st, nil
@@ -251,6 +260,63 @@ func (st *signedTape) judge(rig *Rig, img []byte, what string, res *Result, kind
 			res.violate("c08|"+kind+"|query-accepted-unsigned", fmt.Sprintf("[%s] %s: recovery.Query accepted a header the writer never signed (err=%v): %s", st.cfg, what, qerr, a))
 			return false
 		}
+	}
+	// the documented open sequence over the tampered tape (fresh index): whatever it lists was signed, whatever it reads was signed
+	st.judged++
+	if strings.HasPrefix(what, "forgery") || st.judged%16 == 1 {
+		fd := st.w.NewDir("c08fs")
+		_ = os.MkdirAll(tapeDir(fd), 0o777)
+		if err := os.WriteFile(tapeDir(fd)+"/drive.tar", img, 0o666); err == nil {
+			if frig, err := NewRig(fd, st.cfg); err == nil {
+				if err := frig.Init(); err == nil {
+					queue := []string{"/"}
+					for len(queue) > 0 {
+						d := queue[0]
+						queue = queue[1:]
+						dh, err := frig.FS.Open(d)
+						if err != nil {
+							continue
+						}
+						infos, _ := dh.Readdir(-1)
+						dh.Close()
+						for _, i := range infos {
+							pth := normRowName(d + "/" + i.Name())
+							known := st.names[pth]
+							if !known {
+								// when a (validly signed) record near the top is dropped by the alteration, stfs picks a deeper entry as root and
+								// shows signed names relative to it; dropping signed records is outside C08, so a suffix of a signed name is fine
+								for n := range st.names {
+									if strings.HasSuffix(n, pth) {
+										known = true
+										break
+									}
+								}
+							}
+							if !known {
+								res.violate("c08|"+kind+"|fs-lists-unsigned-name", fmt.Sprintf("[%s] %s: the filesystem opened over the altered tape lists %q, a name the writer never signed", st.cfg, what, pth))
+								frig.Close()
+								return false
+							}
+							if i.IsDir() {
+								queue = append(queue, pth)
+								continue
+							}
+							b, err := ReadAllFile(frig.FS, pth)
+							frig.LocksSettled()
+							if err == nil && !st.sums[sum(b)] {
+								res.violate("c08|"+kind+"|fs-reads-unsigned-content", fmt.Sprintf("[%s] %s: reading %q through the filesystem succeeded with %d bytes (sum %s) that the writer never signed", st.cfg, what, pth, len(b), sum(b)))
+								frig.Close()
+								return false
+							}
+							res.count("fs_reads_over_tampered_tape", 1)
+						}
+					}
+				}
+				frig.LocksSettled()
+				frig.Close()
+			}
+		}
+		os.RemoveAll(fd)
 	}
 	// restore at every pristine record position and at every position the tampered index points to
 	rs := int64(st.cfg.RS)
